@@ -288,6 +288,8 @@ class DockerExecutor(Executor):
         self._is_running = False
         self._pending_jobs: dict[str, "Job"] = OrderedDict()
         self._thread: Optional[threading.Thread] = None
+        # Guards the decision of whether a monitor thread is watching for new jobs.
+        self._lock = threading.RLock()
 
     def set_scheduler(self, scheduler: "Scheduler") -> None:
         super().set_scheduler(scheduler)
@@ -334,16 +336,18 @@ class DockerExecutor(Executor):
         """
         os.makedirs(self._scratch_prefix, exist_ok=True)
 
-        if not self._is_running:
-            self._is_running = True
-            self._thread = threading.Thread(target=self._monitor, daemon=False)
-            self._thread.start()
+        with self._lock:
+            if not self._is_running:
+                self._is_running = True
+                self._thread = threading.Thread(target=self._monitor, daemon=False)
+                self._thread.start()
 
     def stop(self) -> None:
         """
         Stop Executor and monitoring thread.
         """
-        self._is_running = False
+        with self._lock:
+            self._is_running = False
 
         # Stop monitor thread.
         if (
@@ -359,22 +363,34 @@ class DockerExecutor(Executor):
         """
         assert self._scheduler
 
-        try:
-            while self._is_running and self._pending_jobs:
-                # Copy pending_jobs since it can change due to new submissions.
-                jobs = iter_job_status(self._scratch_prefix, dict(self._pending_jobs))
-                for job in jobs:
-                    self._process_job_status(job)
-                time.sleep(self._interval)
+        while True:
+            failed = False
+            try:
+                while self._is_running and self._pending_jobs:
+                    # Copy pending_jobs since it can change due to new submissions.
+                    jobs = iter_job_status(self._scratch_prefix, dict(self._pending_jobs))
+                    for job in jobs:
+                        self._process_job_status(job)
+                    time.sleep(self._interval)
 
-        except Exception as error:
-            # Since we run this is method at the top-level of a thread, we
-            # need to catch all exceptions so we can properly report them to
-            # the scheduler.
-            self._scheduler.reject_job(None, error)
+            except Exception as error:
+                # Since we run this is method at the top-level of a thread, we
+                # need to catch all exceptions so we can properly report them to
+                # the scheduler.
+                failed = True
+                self._scheduler.reject_job(None, error)
 
-        self.log("Shutting down executor...", level=logging.DEBUG)
-        self.stop()
+            self.log("Shutting down executor...", level=logging.DEBUG)
+            with self._lock:
+                # A job submitted since the loop above found nothing left to monitor did not
+                # start a new monitor thread, because _is_running was still set. Keep
+                # monitoring for it instead of exiting.
+                idle = self._is_running and not failed
+                self.stop()
+                if idle and self._pending_jobs:
+                    self._is_running = True
+                    continue
+            break
 
     def _process_job_status(self, job: dict) -> None:
         """
